@@ -20,7 +20,7 @@ def plan(tier, seed):
         env = dict(base)
         env["C10_SHAPE"] = sh
         env.update(extra or {})
-        conds.append(Cond(name, F, "hist", env=env, timeout=timeout if q else 3000))
+        conds.append(Cond(name, F, "hist", env=env, timeout=timeout if q else 1800))
 
     for op in OPS:
         shape("before-connect-%s" % op, op)
